@@ -78,3 +78,31 @@ silent(P, "pow-has-sparse-matrix-operands-swapped",
        [(POW, "        return self.base.has_sparse_matrix and isinstance(self.z, int)", "        return isinstance(self.z, int) and self.base.has_sparse_matrix")])
 silent(P, "globalphase-generator-through-mult",
        [(ID, "        return qp.s_prod(-1, qp.I())", "        return -1.0 * qp.I()")])
+
+# ---- R-C01-pure --------------------------------------------------------------------------------
+SYMOP = "pennylane/ops/op_math/symbolicop.py"
+_SPROD_SPARSE = "        mat = self.base.sparse_matrix(wire_order=wire_order).multiply(self.scalar)\n"
+_SPROD_GET = "        mat = self.base.sparse_matrix(wire_order=wire_order)\n"
+fire(P, "sprod-sparse-matrix-rescales-base-data-attribute",
+     (SPROD, _SPROD_SPARSE, _SPROD_GET + "        # only the stored entries need to be rescaled; the sparsity pattern is unchanged\n"
+                                        "        mat.data = mat.data * self.scalar\n"),
+     "R-C01-pure", "SProd.sparse_matrix")
+fire(P, "sprod-sparse-matrix-data-augmented",
+     (SPROD, _SPROD_SPARSE, _SPROD_GET + "        mat.data *= self.scalar\n"),
+     "R-C01-pure", "SProd.sparse_matrix")
+fire(P, "sprod-sparse-matrix-augmented-in-place",
+     (SPROD, _SPROD_SPARSE, _SPROD_GET + "        mat *= self.scalar\n"),
+     "R-C01-pure", "SProd.sparse_matrix")
+fire(P, "adjoint-sparse-matrix-subscript-store-on-base-matrix",
+     (ADJ, "        base_matrix = self.base.sparse_matrix(wire_order=wire_order)\n",
+           "        base_matrix = self.base.sparse_matrix(wire_order=wire_order)\n        base_matrix[0, 0] = base_matrix[0, 0].conjugate()\n"),
+     "R-C01-pure", "Adjoint.sparse_matrix")
+fire(P, "scalarsymbolicop-matrix-alias-in-branch-written-through-out",
+     (SYMOP, "        base_matrix = self.base.matrix()\n",
+             "        base_matrix = self.base.matrix()\n        scaled = base_matrix\n        if self.base.batch_size is None:\n"
+             "            scaled = pl_math.asarray(scaled)\n        pl_math.multiply(scaled, 1.0, out=scaled)\n"),
+     "R-C01-pure", "ScalarSymbolicOp.matrix")
+silent(P, "sprod-sparse-matrix-rebinds-product",
+       [(SPROD, _SPROD_SPARSE, _SPROD_GET + "        mat = mat * self.scalar\n")])
+silent(P, "sprod-sparse-matrix-copies-then-scales-in-place",
+       [(SPROD, _SPROD_SPARSE, _SPROD_GET + "        mat = mat.copy()\n        mat *= self.scalar\n")])
